@@ -23,6 +23,11 @@ for **every string `u = g.str` of the grammar class** `NormBridge.InClass ir g`
 * the transformed string is in the class too (a decidable hypothesis on `T u`), and the port text
   is a port (`portVal g.port ≠ none`: an unparseable URL is returned as it is, C05).
 
+Each statement comes three times: `normG_*` on the pieces, `norm_*_string` for the two strings
+of the grammar themselves, and `norm_*_string_rel` for **every** pair `u`, `u'` whose cleaned,
+resolved forms are the two strings (`InClassOf`: white space and control characters around, lower-case
+escapes, a redirect that is followed to a URL of the class — nothing is asked of `u` itself).
+
 `platform_aware` is off (`platform = id`, the default).  Each proof is: bridging lemma
 (`NormBridge.parse_str`: what the modelled parser returns on a string of the grammar) + the
 component theorem of `Props/C04.lean`.  Whitespace / control characters around the URL need no
@@ -35,14 +40,10 @@ open Ural Ural.Py Ural.UrlParts Ural.Quote Ural.Canonicalize Ural.Normalize Ural
 
 /-! ## scheme swap / scheme removal -/
 
-/-- **the scheme prefix is irrelevant on strings** (`strip_protocol`): `https://…`, `ftp://…`,
-`//…` and the bare spelling of the same rest are normalized alike -/
-theorem norm_scheme_string (puny : Str → Str) (o : Opts) (hs : o.stripProtocol = true) (ir : Bool)
-    (g : UrlG) (P : Proto) (hg : InClass ir g) (hg' : InClass ir { g with proto := P })
-    (hport : portVal g.port ≠ none) :
-    normalizeUrlString puny id o ir ({ g with proto := P } : UrlG).str =
-      normalizeUrlString puny id o ir g.str := by
-  apply string_of_grammar puny o ir _ _ hg hg' hport
+/-- on the pieces -/
+theorem normG_scheme (puny : Str → Str) (o : Normalize.Opts) (hs : o.stripProtocol = true)
+    (g : UrlG) (P : Proto) :
+    normG puny o ({ g with proto := P } : UrlG) = normG puny o g := by
   unfold normG UrlG.parsed
   cases portVal g.port with
   | none => rfl
@@ -52,32 +53,62 @@ theorem norm_scheme_string (puny : Str → Str) (o : Opts) (hs : o.stripProtocol
       (by simp [hs]) (by simp [hs])).2
     exact congrArg some this
 
+/-- **the scheme prefix is irrelevant on strings** (`strip_protocol`): `https://…`, `ftp://…`,
+`//…` and the bare spelling of the same rest are normalized alike -/
+theorem norm_scheme_string (puny : Str → Str) (o : Normalize.Opts) (hs : o.stripProtocol = true) (ir : Bool)
+    (g : UrlG) (P : Proto) (hg : InClass ir g) (hg' : InClass ir { g with proto := P })
+    (hport : portVal g.port ≠ none) :
+    normalizeUrlString puny id o ir ({ g with proto := P } : UrlG).str =
+      normalizeUrlString puny id o ir g.str :=
+  string_of_grammar puny o ir _ _ hg hg' hport
+    (normG_scheme puny o hs g P)
+
+/-- … and for every `u`, `u'` whose cleaned, resolved forms are the two strings (white space /
+control characters around, lower-case escapes, a followed redirect) -/
+theorem norm_scheme_string_rel (puny : Str → Str) (o : Normalize.Opts) (hs : o.stripProtocol = true) (ir : Bool)
+    (g : UrlG) (P : Proto) (u u' : Str) (hg : InClassOf ir g u) (hg' : InClassOf ir { g with proto := P } u')
+    (hport : portVal g.port ≠ none) :
+    normalizeUrlString puny id o ir u' = normalizeUrlString puny id o ir u :=
+  string_of_grammar_rel puny o ir _ _ u u' hg hg' hport
+    (normG_scheme puny o hs g P)
+
 /-! ## userinfo -/
 
-/-- **userinfo is irrelevant on strings** (`strip_authentication`): inserted, replaced, removed -/
-theorem norm_userinfo_string (puny : Str → Str) (o : Opts) (hs : o.stripAuthentication = true)
-    (ir : Bool) (g : UrlG) (ui' : Option Str) (hg : InClass ir g)
-    (hg' : InClass ir { g with ui := ui' }) (hport : portVal g.port ≠ none) :
-    normalizeUrlString puny id o ir ({ g with ui := ui' } : UrlG).str =
-      normalizeUrlString puny id o ir g.str := by
-  apply string_of_grammar puny o ir _ _ hg hg' hport
+/-- on the pieces -/
+theorem normG_userinfo (puny : Str → Str) (o : Normalize.Opts) (hs : o.stripAuthentication = true)
+    (g : UrlG) (ui' : Option Str) :
+    normG puny o ({ g with ui := ui' } : UrlG) = normG puny o g := by
   refine normG_congr puny o g _ ?_ ?_ ?_
   · rfl
   · rfl
   intro po
   exact norm_userinfo_irrelevant puny o _ (g.record po) _ _ _ hs
 
+/-- **userinfo is irrelevant on strings** (`strip_authentication`): inserted, replaced, removed -/
+theorem norm_userinfo_string (puny : Str → Str) (o : Normalize.Opts) (hs : o.stripAuthentication = true)
+    (ir : Bool) (g : UrlG) (ui' : Option Str) (hg : InClass ir g)
+    (hg' : InClass ir { g with ui := ui' }) (hport : portVal g.port ≠ none) :
+    normalizeUrlString puny id o ir ({ g with ui := ui' } : UrlG).str =
+      normalizeUrlString puny id o ir g.str :=
+  string_of_grammar puny o ir _ _ hg hg' hport
+    (normG_userinfo puny o hs g ui')
+
+/-- … and for every `u`, `u'` whose cleaned, resolved forms are the two strings (white space /
+control characters around, lower-case escapes, a followed redirect) -/
+theorem norm_userinfo_string_rel (puny : Str → Str) (o : Normalize.Opts) (hs : o.stripAuthentication = true)
+    (ir : Bool) (g : UrlG) (ui' : Option Str) (u u' : Str) (hg : InClassOf ir g u)
+    (hg' : InClassOf ir { g with ui := ui' } u') (hport : portVal g.port ≠ none) :
+    normalizeUrlString puny id o ir u' = normalizeUrlString puny id o ir u :=
+  string_of_grammar_rel puny o ir _ _ u u' hg hg' hport
+    (normG_userinfo puny o hs g ui')
+
 /-! ## explicit default port -/
 
-/-- **an explicit `:80` / `:443` is irrelevant on strings** (any options): the port text `p`
-reads 80 or 443 (`80`, `080`, `443`, …) where the base has no port (`a.com`, or `a.com:`) -/
-theorem norm_default_port_string (puny : Str → Str) (o : Opts) (ir : Bool) (g : UrlG) (p : Str)
+/-- on the pieces -/
+theorem normG_default_port (puny : Str → Str) (o : Normalize.Opts) (g : UrlG) (p : Str)
     (n : Nat) (hn : n = 80 ∨ n = 443) (hp : portVal (some p) = some (some n))
-    (hbase : portVal g.port = some none)
-    (hg : InClass ir g) (hg' : InClass ir { g with port := some p }) :
-    normalizeUrlString puny id o ir ({ g with port := some p } : UrlG).str =
-      normalizeUrlString puny id o ir g.str := by
-  apply string_of_grammar puny o ir _ _ hg hg' (by rw [hbase]; simp)
+    (hbase : portVal g.port = some none) :
+    normG puny o ({ g with port := some p } : UrlG) = normG puny o g := by
   unfold normG UrlG.parsed
   simp only [hp, hbase, Option.map_some]
   congr 2
@@ -87,19 +118,36 @@ theorem norm_default_port_string (puny : Str → Str) (o : Opts) (ir : Bool) (g 
     simp only [normParts_eq, UrlG.record, UrlG.hostname, normPort, hn, if_true]
   exact e1
 
+/-- **an explicit `:80` / `:443` is irrelevant on strings** (any options): the port text `p`
+reads 80 or 443 (`80`, `080`, `443`, …) where the base has no port (`a.com`, or `a.com:`) -/
+theorem norm_default_port_string (puny : Str → Str) (o : Normalize.Opts) (ir : Bool) (g : UrlG) (p : Str)
+    (n : Nat) (hn : n = 80 ∨ n = 443) (hp : portVal (some p) = some (some n))
+    (hbase : portVal g.port = some none)
+    (hg : InClass ir g) (hg' : InClass ir { g with port := some p }) :
+    normalizeUrlString puny id o ir ({ g with port := some p } : UrlG).str =
+      normalizeUrlString puny id o ir g.str :=
+  string_of_grammar puny o ir _ _ hg hg' (by rw [hbase]; simp)
+    (normG_default_port puny o g p n hn hp hbase)
+
+/-- … and for every `u`, `u'` whose cleaned, resolved forms are the two strings (white space /
+control characters around, lower-case escapes, a followed redirect) -/
+theorem norm_default_port_string_rel (puny : Str → Str) (o : Normalize.Opts) (ir : Bool) (g : UrlG) (p : Str)
+    (n : Nat) (hn : n = 80 ∨ n = 443) (hp : portVal (some p) = some (some n))
+    (hbase : portVal g.port = some none)
+    (u u' : Str) (hg : InClassOf ir g u) (hg' : InClassOf ir { g with port := some p } u') :
+    normalizeUrlString puny id o ir u' = normalizeUrlString puny id o ir u :=
+  string_of_grammar_rel puny o ir _ _ u u' hg hg' (by rw [hbase]; simp)
+    (normG_default_port puny o g p n hn hp hbase)
+
 /-! ## letter case of the host -/
 
 theorem lower_eq_nil_iff {s : Str} : lower s = [] ↔ s = [] := by
   cases s <;> simp [lower]
 
-/-- **the letter case of the host is irrelevant on strings** (any options, any decoder — the
-parser lower-cases the host): `h'` and the host of the base have the same `str.lower` -/
-theorem norm_host_case_string (puny : Str → Str) (o : Opts) (ir : Bool) (g : UrlG) (h' : Str)
-    (hl : lower h' = lower g.host) (hpct : '%' ∉ g.host) (hpct' : '%' ∉ h')
-    (hg : InClass ir g) (hg' : InClass ir { g with host := h' }) (hport : portVal g.port ≠ none) :
-    normalizeUrlString puny id o ir ({ g with host := h' } : UrlG).str =
-      normalizeUrlString puny id o ir g.str := by
-  apply string_of_grammar puny o ir _ _ hg hg' hport
+/-- on the pieces -/
+theorem normG_host_case (puny : Str → Str) (o : Normalize.Opts) (g : UrlG) (h' : Str)
+    (hl : lower h' = lower g.host) (hpct : '%' ∉ g.host) (hpct' : '%' ∉ h') :
+    normG puny o ({ g with host := h' } : UrlG) = normG puny o g := by
   refine normG_congr puny o g _ ?_ ?_ ?_
   · rfl
   · rfl
@@ -114,22 +162,35 @@ theorem norm_host_case_string (puny : Str → Str) (o : Opts) (ir : Bool) (g : U
       simp [he, he']
   simp only [normParts_eq, UrlG.record, hh]
 
+/-- **the letter case of the host is irrelevant on strings** (any options, any decoder — the
+parser lower-cases the host): `h'` and the host of the base have the same `str.lower` -/
+theorem norm_host_case_string (puny : Str → Str) (o : Normalize.Opts) (ir : Bool) (g : UrlG) (h' : Str)
+    (hl : lower h' = lower g.host) (hpct : '%' ∉ g.host) (hpct' : '%' ∉ h')
+    (hg : InClass ir g) (hg' : InClass ir { g with host := h' }) (hport : portVal g.port ≠ none) :
+    normalizeUrlString puny id o ir ({ g with host := h' } : UrlG).str =
+      normalizeUrlString puny id o ir g.str :=
+  string_of_grammar puny o ir _ _ hg hg' hport
+    (normG_host_case puny o g h' hl hpct hpct')
+
+/-- … and for every `u`, `u'` whose cleaned, resolved forms are the two strings (white space /
+control characters around, lower-case escapes, a followed redirect) -/
+theorem norm_host_case_string_rel (puny : Str → Str) (o : Normalize.Opts) (ir : Bool) (g : UrlG) (h' : Str)
+    (hl : lower h' = lower g.host) (hpct : '%' ∉ g.host) (hpct' : '%' ∉ h')
+    (u u' : Str) (hg : InClassOf ir g u) (hg' : InClassOf ir { g with host := h' } u') (hport : portVal g.port ≠ none) :
+    normalizeUrlString puny id o ir u' = normalizeUrlString puny id o ir u :=
+  string_of_grammar_rel puny o ir _ _ u u' hg hg' hport
+    (normG_host_case puny o g h' hl hpct hpct')
+
 /-! ## an irrelevant label in front of the host -/
 
-/-- **a documented irrelevant label in front of the host is irrelevant on strings**
-(`strip_irrelevant_subdomains`): `www.`, `WWW.`, `www2.`, `m.`, `mobile.`, and `amp.` under
-`normalize_amp` (`documented_labels`), in front of a non-empty host -/
-theorem norm_irrelevant_label_string (puny : Str → Str) (hpl : PunyLaws puny) (o : Opts)
-    (hs : o.stripIrrelevantSubdomains = true) (ir : Bool) (g : UrlG) (lab : Str)
+/-- on the pieces -/
+theorem normG_irrelevant_label (puny : Str → Str) (hpl : PunyLaws puny) (o : Normalize.Opts)
+    (hs : o.stripIrrelevantSubdomains = true) (g : UrlG) (lab : Str)
     (hne : g.host ≠ []) (hdot : '.' ∉ lab) (hlen : lab.length ≤ 6)
     (hx : lower (lab.take 4) ≠ "xn--".toList)
     (hlab : isIrrLabel o.normalizeAmp (lower lab) = true)
-    (hpct : '%' ∉ g.host) (hpct' : '%' ∉ lab)
-    (hg : InClass ir g) (hg' : InClass ir { g with host := lab ++ '.' :: g.host })
-    (hport : portVal g.port ≠ none) :
-    normalizeUrlString puny id o ir ({ g with host := lab ++ '.' :: g.host } : UrlG).str =
-      normalizeUrlString puny id o ir g.str := by
-  apply string_of_grammar puny o ir _ _ hg hg' hport
+    (hpct : '%' ∉ g.host) (hpct' : '%' ∉ lab) :
+    normG puny o ({ g with host := lab ++ '.' :: g.host } : UrlG) = normG puny o g := by
   refine normG_congr puny o g _ ?_ ?_ ?_
   · rfl
   · rfl
@@ -166,29 +227,93 @@ theorem norm_irrelevant_label_string (puny : Str → Str) (hpl : PunyLaws puny) 
   · rw [← lower_take, lower_idem]; rw [lower_take]; exact (by rw [← lower_take]; exact hx)
   · rw [lower_idem]; exact hlab
 
+/-- **a documented irrelevant label in front of the host is irrelevant on strings**
+(`strip_irrelevant_subdomains`): `www.`, `WWW.`, `www2.`, `m.`, `mobile.`, and `amp.` under
+`normalize_amp` (`documented_labels`), in front of a non-empty host -/
+theorem norm_irrelevant_label_string (puny : Str → Str) (hpl : PunyLaws puny) (o : Normalize.Opts)
+    (hs : o.stripIrrelevantSubdomains = true) (ir : Bool) (g : UrlG) (lab : Str)
+    (hne : g.host ≠ []) (hdot : '.' ∉ lab) (hlen : lab.length ≤ 6)
+    (hx : lower (lab.take 4) ≠ "xn--".toList)
+    (hlab : isIrrLabel o.normalizeAmp (lower lab) = true)
+    (hpct : '%' ∉ g.host) (hpct' : '%' ∉ lab)
+    (hg : InClass ir g) (hg' : InClass ir { g with host := lab ++ '.' :: g.host })
+    (hport : portVal g.port ≠ none) :
+    normalizeUrlString puny id o ir ({ g with host := lab ++ '.' :: g.host } : UrlG).str =
+      normalizeUrlString puny id o ir g.str :=
+  string_of_grammar puny o ir _ _ hg hg' hport
+    (normG_irrelevant_label puny hpl o hs g lab hne hdot hlen hx hlab hpct hpct')
+
+/-- … and for every `u`, `u'` whose cleaned, resolved forms are the two strings (white space /
+control characters around, lower-case escapes, a followed redirect) -/
+theorem norm_irrelevant_label_string_rel (puny : Str → Str) (hpl : PunyLaws puny) (o : Normalize.Opts)
+    (hs : o.stripIrrelevantSubdomains = true) (ir : Bool) (g : UrlG) (lab : Str)
+    (hne : g.host ≠ []) (hdot : '.' ∉ lab) (hlen : lab.length ≤ 6)
+    (hx : lower (lab.take 4) ≠ "xn--".toList)
+    (hlab : isIrrLabel o.normalizeAmp (lower lab) = true)
+    (hpct : '%' ∉ g.host) (hpct' : '%' ∉ lab)
+    (u u' : Str) (hg : InClassOf ir g u) (hg' : InClassOf ir { g with host := lab ++ '.' :: g.host } u')
+    (hport : portVal g.port ≠ none) :
+    normalizeUrlString puny id o ir u' = normalizeUrlString puny id o ir u :=
+  string_of_grammar_rel puny o ir _ _ u u' hg hg' hport
+    (normG_irrelevant_label puny hpl o hs g lab hne hdot hlen hx hlab hpct hpct')
+
 /-! ## trailing slash, trailing index file name -/
 
 theorem absPath_of_class {ir : Bool} {g : UrlG} (hg : InClass ir g) : absPath g.path = true :=
   (wf_facts hg.wf).pabs
 
-/-- **a trailing slash is irrelevant on strings** (`strip_trailing_slash`), also after an empty
-path (`http://a.com` / `http://a.com/`) -/
-theorem norm_trailing_slash_string (puny : Str → Str) (o : Opts) (hl : o.lowercase = false)
-    (hts : o.stripTrailingSlash = true) (ir : Bool) (g : UrlG)
-    (hg : InClass ir g) (hg' : InClass ir { g with path := g.path ++ ['/'] })
-    (hport : portVal g.port ≠ none) :
-    normalizeUrlString puny id o ir ({ g with path := g.path ++ ['/'] } : UrlG).str =
-      normalizeUrlString puny id o ir g.str := by
-  apply string_of_grammar puny o ir _ _ hg hg' hport
+/-- on the pieces -/
+theorem normG_trailing_slash (puny : Str → Str) (o : Normalize.Opts) (hl : o.lowercase = false)
+    (hts : o.stripTrailingSlash = true) (g : UrlG) (hw : g.wf = true) :
+    normG puny o ({ g with path := g.path ++ ['/'] } : UrlG) = normG puny o g := by
   refine normG_congr puny o g _ ?_ ?_ ?_
   · rfl
   · rfl
   intro po
-  exact norm_trailing_slash puny o hl hts _ (g.record po) (absPath_of_class hg)
+  exact norm_trailing_slash puny o hl hts _ (g.record po) ((wf_facts hw).pabs)
+
+/-- **a trailing slash is irrelevant on strings** (`strip_trailing_slash`), also after an empty
+path (`http://a.com` / `http://a.com/`) -/
+theorem norm_trailing_slash_string (puny : Str → Str) (o : Normalize.Opts) (hl : o.lowercase = false)
+    (hts : o.stripTrailingSlash = true) (ir : Bool) (g : UrlG)
+    (hg : InClass ir g) (hg' : InClass ir { g with path := g.path ++ ['/'] })
+    (hport : portVal g.port ≠ none) :
+    normalizeUrlString puny id o ir ({ g with path := g.path ++ ['/'] } : UrlG).str =
+      normalizeUrlString puny id o ir g.str :=
+  string_of_grammar puny o ir _ _ hg hg' hport
+    (normG_trailing_slash puny o hl hts g hg.wf)
+
+/-- … and for every `u`, `u'` whose cleaned, resolved forms are the two strings (white space /
+control characters around, lower-case escapes, a followed redirect) -/
+theorem norm_trailing_slash_string_rel (puny : Str → Str) (o : Normalize.Opts) (hl : o.lowercase = false)
+    (hts : o.stripTrailingSlash = true) (ir : Bool) (g : UrlG)
+    (u u' : Str) (hg : InClassOf ir g u) (hg' : InClassOf ir { g with path := g.path ++ ['/'] } u')
+    (hport : portVal g.port ≠ none) :
+    normalizeUrlString puny id o ir u' = normalizeUrlString puny id o ir u :=
+  string_of_grammar_rel puny o ir _ _ u u' hg hg' hport
+    (normG_trailing_slash puny o hl hts g hg.wf)
+
+/-- on the pieces -/
+theorem normG_index (puny : Str → Str) (o : Normalize.Opts) (hl : o.lowercase = false)
+    (hts : o.stripTrailingSlash = true) (hi : o.stripIndex = true) (g : UrlG)
+    (name : Str) (hn : '/' ∉ unquotePath name)
+    (hroot : splitextRoot (unquotePath name) = "index".toList ∨
+    splitextRoot (unquotePath name) = "default".toList)
+    (hnamp : o.normalizeAmp = true → ampSuffixSubFrom (unquotePath name) true 0 = unquotePath name)
+    (hbamp : o.normalizeAmp = true →
+    ampSuffixSub (resolveUnquoted true (unquotePath g.path)) = resolveUnquoted true (unquotePath g.path))
+    (hbidx : stripIndex (resolveUnquoted true (unquotePath g.path)) =
+    resolveUnquoted true (unquotePath g.path)) (hw : g.wf = true) :
+    normG puny o ({ g with path := g.path ++ '/' :: name } : UrlG) = normG puny o g := by
+  refine normG_congr puny o g _ ?_ ?_ ?_
+  · rfl
+  · rfl
+  intro po
+  exact norm_index puny o hl hts hi _ (g.record po) name ((wf_facts hw).pabs) hn hroot hnamp hbamp hbidx
 
 /-- **a trailing `index.*` / `default.*` file name is irrelevant on strings** (`strip_index`,
 `strip_trailing_slash`), under the hypotheses of `norm_index` on the name and on the base path -/
-theorem norm_index_string (puny : Str → Str) (o : Opts) (hl : o.lowercase = false)
+theorem norm_index_string (puny : Str → Str) (o : Normalize.Opts) (hl : o.lowercase = false)
     (hts : o.stripTrailingSlash = true) (hi : o.stripIndex = true) (ir : Bool) (g : UrlG)
     (name : Str) (hn : '/' ∉ unquotePath name)
     (hroot : splitextRoot (unquotePath name) = "index".toList ∨
@@ -201,26 +326,40 @@ theorem norm_index_string (puny : Str → Str) (o : Opts) (hl : o.lowercase = fa
     (hg : InClass ir g) (hg' : InClass ir { g with path := g.path ++ '/' :: name })
     (hport : portVal g.port ≠ none) :
     normalizeUrlString puny id o ir ({ g with path := g.path ++ '/' :: name } : UrlG).str =
-      normalizeUrlString puny id o ir g.str := by
-  apply string_of_grammar puny o ir _ _ hg hg' hport
-  refine normG_congr puny o g _ ?_ ?_ ?_
-  · rfl
-  · rfl
-  intro po
-  exact norm_index puny o hl hts hi _ (g.record po) name (absPath_of_class hg) hn hroot hnamp hbamp hbidx
+      normalizeUrlString puny id o ir g.str :=
+  string_of_grammar puny o ir _ _ hg hg' hport
+    (normG_index puny o hl hts hi g name hn hroot hnamp hbamp hbidx hg.wf)
+
+/-- … and for every `u`, `u'` whose cleaned, resolved forms are the two strings (white space /
+control characters around, lower-case escapes, a followed redirect) -/
+theorem norm_index_string_rel (puny : Str → Str) (o : Normalize.Opts) (hl : o.lowercase = false)
+    (hts : o.stripTrailingSlash = true) (hi : o.stripIndex = true) (ir : Bool) (g : UrlG)
+    (name : Str) (hn : '/' ∉ unquotePath name)
+    (hroot : splitextRoot (unquotePath name) = "index".toList ∨
+      splitextRoot (unquotePath name) = "default".toList)
+    (hnamp : o.normalizeAmp = true → ampSuffixSubFrom (unquotePath name) true 0 = unquotePath name)
+    (hbamp : o.normalizeAmp = true →
+      ampSuffixSub (resolveUnquoted true (unquotePath g.path)) = resolveUnquoted true (unquotePath g.path))
+    (hbidx : stripIndex (resolveUnquoted true (unquotePath g.path)) =
+      resolveUnquoted true (unquotePath g.path))
+    (u u' : Str) (hg : InClassOf ir g u) (hg' : InClassOf ir { g with path := g.path ++ '/' :: name } u')
+    (hport : portVal g.port ≠ none) :
+    normalizeUrlString puny id o ir u' = normalizeUrlString puny id o ir u :=
+  string_of_grammar_rel puny o ir _ _ u u' hg hg' hport
+    (normG_index puny o hl hts hi g name hn hroot hnamp hbamp hbidx hg.wf)
 
 /-! ## fragment -/
 
 /-- a fragment the fragment rule drops (or no fragment at all) -/
-def DroppedFragment (o : Opts) : Option Str → Prop
+def DroppedFragment (o : Normalize.Opts) : Option Str → Prop
   | none => True
   | some f => o.stripFragment = .yes ∨
       (o.stripFragment = .exceptRouting ∧ shouldStripFragment (unquoteFragment f) = false)
 
-instance (o : Opts) (f : Option Str) : Decidable (DroppedFragment o f) := by
+instance (o : Normalize.Opts) (f : Option Str) : Decidable (DroppedFragment o f) := by
   cases f <;> (unfold DroppedFragment; infer_instance)
 
-theorem frag_to_empty (puny : Str → Str) (o : Opts) (hl : o.lowercase = false) (hp : Bool)
+theorem frag_to_empty (puny : Str → Str) (o : Normalize.Opts) (hl : o.lowercase = false) (hp : Bool)
     (g : UrlG) (po : Option Nat) (hf : DroppedFragment o g.fragment) :
     normParts puny o hp (g.record po) = normParts puny o hp { g.record po with fragment := [] } := by
   cases hfr : g.fragment with
@@ -233,14 +372,10 @@ theorem frag_to_empty (puny : Str → Str) (o : Opts) (hl : o.lowercase = false)
     rw [← this]
     simp only [normParts_eq, UrlG.record, hfr, Option.getD_some]
 
-/-- **a non-routing fragment is irrelevant on strings**: added, replaced by another one, removed -/
-theorem norm_fragment_string (puny : Str → Str) (o : Opts) (hl : o.lowercase = false) (ir : Bool)
-    (g : UrlG) (f' : Option Str) (hf : DroppedFragment o g.fragment) (hf' : DroppedFragment o f')
-    (hg : InClass ir g) (hg' : InClass ir { g with fragment := f' })
-    (hport : portVal g.port ≠ none) :
-    normalizeUrlString puny id o ir ({ g with fragment := f' } : UrlG).str =
-      normalizeUrlString puny id o ir g.str := by
-  apply string_of_grammar puny o ir _ _ hg hg' hport
+/-- on the pieces -/
+theorem normG_fragment (puny : Str → Str) (o : Normalize.Opts) (hl : o.lowercase = false)
+    (g : UrlG) (f' : Option Str) (hf : DroppedFragment o g.fragment) (hf' : DroppedFragment o f') :
+    normG puny o ({ g with fragment := f' } : UrlG) = normG puny o g := by
   refine normG_congr puny o g _ ?_ ?_ ?_
   · rfl
   · rfl
@@ -249,12 +384,32 @@ theorem norm_fragment_string (puny : Str → Str) (o : Opts) (hl : o.lowercase =
     frag_to_empty puny o hl _ ({ g with fragment := f' } : UrlG) po hf']
   rfl
 
+/-- **a non-routing fragment is irrelevant on strings**: added, replaced by another one, removed -/
+theorem norm_fragment_string (puny : Str → Str) (o : Normalize.Opts) (hl : o.lowercase = false) (ir : Bool)
+    (g : UrlG) (f' : Option Str) (hf : DroppedFragment o g.fragment) (hf' : DroppedFragment o f')
+    (hg : InClass ir g) (hg' : InClass ir { g with fragment := f' })
+    (hport : portVal g.port ≠ none) :
+    normalizeUrlString puny id o ir ({ g with fragment := f' } : UrlG).str =
+      normalizeUrlString puny id o ir g.str :=
+  string_of_grammar puny o ir _ _ hg hg' hport
+    (normG_fragment puny o hl g f' hf hf')
+
+/-- … and for every `u`, `u'` whose cleaned, resolved forms are the two strings (white space /
+control characters around, lower-case escapes, a followed redirect) -/
+theorem norm_fragment_string_rel (puny : Str → Str) (o : Normalize.Opts) (hl : o.lowercase = false) (ir : Bool)
+    (g : UrlG) (f' : Option Str) (hf : DroppedFragment o g.fragment) (hf' : DroppedFragment o f')
+    (u u' : Str) (hg : InClassOf ir g u) (hg' : InClassOf ir { g with fragment := f' } u')
+    (hport : portVal g.port ≠ none) :
+    normalizeUrlString puny id o ir u' = normalizeUrlString puny id o ir u :=
+  string_of_grammar_rel puny o ir _ _ u u' hg hg' hport
+    (normG_fragment puny o hl g f' hf hf')
+
 /-! ## whitespace and control characters: every string that parses, no grammar -/
 
 /-- **whitespace and control characters around the URL are irrelevant on strings**, with and
 without redirection inference, for every `s` whose resolved, cleaned form the modelled parser
 accepts -/
-theorem norm_surrounding_ws_string (puny : Str → Str) (o : Opts) (ir : Bool) (w1 w2 s : Str)
+theorem norm_surrounding_ws_string (puny : Str → Str) (o : Normalize.Opts) (ir : Bool) (w1 w2 s : Str)
     (h1 : w1.all isSurrounding = true) (h2 : w2.all isSurrounding = true)
     (hparse : parseUrl (prepared id ir s).1 ≠ none) :
     normalizeUrlString puny id o ir (w1 ++ s ++ w2) = normalizeUrlString puny id o ir s := by
@@ -263,7 +418,7 @@ theorem norm_surrounding_ws_string (puny : Str → Str) (o : Opts) (ir : Bool) (
 
 /-- **control characters anywhere, whitespace at the ends**: two strings with the same cleaned
 form are normalized alike -/
-theorem norm_clean_string (puny : Str → Str) (o : Opts) (ir : Bool) (a b : Str)
+theorem norm_clean_string (puny : Str → Str) (o : Normalize.Opts) (ir : Bool) (a b : Str)
     (h : cleanedUrl a = cleanedUrl b) (hparse : parseUrl (prepared id ir b).1 ≠ none) :
     normalizeUrlString puny id o ir a = normalizeUrlString puny id o ir b := by
   rw [normalizeUrlString_eq, normalizeUrlString_eq]
@@ -278,10 +433,24 @@ theorem record_query_self (g : UrlG) (q : Str) (po : Option Nat) (h : g.query = 
     g.record po = { g.record po with query := q } := by
   simp [UrlG.record, h]
 
+/-- on the pieces -/
+theorem normG_tracking_item (puny : Str → Str) (o : Normalize.Opts) (hl : o.lowercase = false)
+    (hts : o.stripTrailingSlash = true) (g : UrlG) (r0 : Str) (R1 R2 : List Str) (t : Str)
+    (hq : g.query = some (join ['&'] (r0 :: R1 ++ R2)))
+    (hR : ∀ r ∈ r0 :: R1 ++ t :: R2, '&' ∉ r)
+    (hx : keepItem o (hostKey puny g.hostname) (seenAt o (unqItem (cutFirst '=' t))) = false) :
+    normG puny o ({ g with query := some (join ['&'] (r0 :: R1 ++ t :: R2)) } : UrlG) = normG puny o g := by
+  refine normG_congr puny o g _ ?_ ?_ ?_
+  · rfl
+  · rfl
+  intro po
+  rw [record_query, record_query_self g _ po hq]
+  exact norm_tracking_item_raw puny o hl hts _ (g.record po) r0 R1 R2 t hR hx
+
 /-- **a tracking item inserted at any position after the first is irrelevant on strings**: the
 query of the base is `"&".join(r0 :: R1 ++ R2)`, that of the variant
 `"&".join(r0 :: R1 ++ t :: R2)`, and the filter strips `t` as it sees it -/
-theorem norm_tracking_item_string (puny : Str → Str) (o : Opts) (hl : o.lowercase = false)
+theorem norm_tracking_item_string (puny : Str → Str) (o : Normalize.Opts) (hl : o.lowercase = false)
     (hts : o.stripTrailingSlash = true) (ir : Bool) (g : UrlG) (r0 : Str) (R1 R2 : List Str) (t : Str)
     (hq : g.query = some (join ['&'] (r0 :: R1 ++ R2)))
     (hR : ∀ r ∈ r0 :: R1 ++ t :: R2, '&' ∉ r)
@@ -291,26 +460,31 @@ theorem norm_tracking_item_string (puny : Str → Str) (o : Opts) (hl : o.lowerc
     (hport : portVal g.port ≠ none) :
     normalizeUrlString puny id o ir
         ({ g with query := some (join ['&'] (r0 :: R1 ++ t :: R2)) } : UrlG).str =
-      normalizeUrlString puny id o ir g.str := by
-  apply string_of_grammar puny o ir _ _ hg hg' hport
-  refine normG_congr puny o g _ ?_ ?_ ?_
-  · rfl
-  · rfl
-  intro po
-  rw [record_query, record_query_self g _ po hq]
-  exact norm_tracking_item_raw puny o hl hts _ (g.record po) r0 R1 R2 t hR hx
+      normalizeUrlString puny id o ir g.str :=
+  string_of_grammar puny o ir _ _ hg hg' hport
+    (normG_tracking_item puny o hl hts g r0 R1 R2 t hq hR hx)
 
-/-- **the order of the query items is irrelevant on strings** (`sort_query`) -/
-theorem norm_query_permutation_string (puny : Str → Str) (o : Opts) (hl : o.lowercase = false)
-    (hts : o.stripTrailingSlash = true) (hs : o.sortQuery = true) (ir : Bool) (g : UrlG)
+/-- … and for every `u`, `u'` whose cleaned, resolved forms are the two strings (white space /
+control characters around, lower-case escapes, a followed redirect) -/
+theorem norm_tracking_item_string_rel (puny : Str → Str) (o : Normalize.Opts) (hl : o.lowercase = false)
+    (hts : o.stripTrailingSlash = true) (ir : Bool) (g : UrlG) (r0 : Str) (R1 R2 : List Str) (t : Str)
+    (hq : g.query = some (join ['&'] (r0 :: R1 ++ R2)))
+    (hR : ∀ r ∈ r0 :: R1 ++ t :: R2, '&' ∉ r)
+    (hx : keepItem o (hostKey puny g.hostname) (seenAt o (unqItem (cutFirst '=' t))) = false)
+    (u u' : Str) (hg : InClassOf ir g u)
+    (hg' : InClassOf ir { g with query := some (join ['&'] (r0 :: R1 ++ t :: R2)) } u')
+    (hport : portVal g.port ≠ none) :
+    normalizeUrlString puny id o ir u' = normalizeUrlString puny id o ir u :=
+  string_of_grammar_rel puny o ir _ _ u u' hg hg' hport
+    (normG_tracking_item puny o hl hts g r0 R1 R2 t hq hR hx)
+
+/-- on the pieces -/
+theorem normG_query_permutation (puny : Str → Str) (o : Normalize.Opts) (hl : o.lowercase = false)
+    (hts : o.stripTrailingSlash = true) (hs : o.sortQuery = true) (g : UrlG)
     (q q' : Str) (hq : g.query = some q) (hperm : (decoded q').Perm (decoded q))
     (hamp : o.fixCommonMistakes = true →
-      ∀ kv ∈ decoded q', dropAmp (serializeItem kv) = serializeItem kv)
-    (hg : InClass ir g) (hg' : InClass ir { g with query := some q' })
-    (hport : portVal g.port ≠ none) :
-    normalizeUrlString puny id o ir ({ g with query := some q' } : UrlG).str =
-      normalizeUrlString puny id o ir g.str := by
-  apply string_of_grammar puny o ir _ _ hg hg' hport
+    ∀ kv ∈ decoded q', dropAmp (serializeItem kv) = serializeItem kv) :
+    normG puny o ({ g with query := some q' } : UrlG) = normG puny o g := by
   refine normG_congr puny o g _ ?_ ?_ ?_
   · rfl
   · rfl
@@ -318,9 +492,50 @@ theorem norm_query_permutation_string (puny : Str → Str) (o : Opts) (hl : o.lo
   rw [record_query, record_query_self g _ po hq]
   exact norm_query_permutation puny o hl hts hs _ (g.record po) q' q hperm hamp
 
+/-- **the order of the query items is irrelevant on strings** (`sort_query`) -/
+theorem norm_query_permutation_string (puny : Str → Str) (o : Normalize.Opts) (hl : o.lowercase = false)
+    (hts : o.stripTrailingSlash = true) (hs : o.sortQuery = true) (ir : Bool) (g : UrlG)
+    (q q' : Str) (hq : g.query = some q) (hperm : (decoded q').Perm (decoded q))
+    (hamp : o.fixCommonMistakes = true →
+      ∀ kv ∈ decoded q', dropAmp (serializeItem kv) = serializeItem kv)
+    (hg : InClass ir g) (hg' : InClass ir { g with query := some q' })
+    (hport : portVal g.port ≠ none) :
+    normalizeUrlString puny id o ir ({ g with query := some q' } : UrlG).str =
+      normalizeUrlString puny id o ir g.str :=
+  string_of_grammar puny o ir _ _ hg hg' hport
+    (normG_query_permutation puny o hl hts hs g q q' hq hperm hamp)
+
+/-- … and for every `u`, `u'` whose cleaned, resolved forms are the two strings (white space /
+control characters around, lower-case escapes, a followed redirect) -/
+theorem norm_query_permutation_string_rel (puny : Str → Str) (o : Normalize.Opts) (hl : o.lowercase = false)
+    (hts : o.stripTrailingSlash = true) (hs : o.sortQuery = true) (ir : Bool) (g : UrlG)
+    (q q' : Str) (hq : g.query = some q) (hperm : (decoded q').Perm (decoded q))
+    (hamp : o.fixCommonMistakes = true →
+      ∀ kv ∈ decoded q', dropAmp (serializeItem kv) = serializeItem kv)
+    (u u' : Str) (hg : InClassOf ir g u) (hg' : InClassOf ir { g with query := some q' } u')
+    (hport : portVal g.port ≠ none) :
+    normalizeUrlString puny id o ir u' = normalizeUrlString puny id o ir u :=
+  string_of_grammar_rel puny o ir _ _ u u' hg hg' hport
+    (normG_query_permutation puny o hl hts hs g q q' hq hperm hamp)
+
+/-- on the pieces -/
+theorem normG_amp_semicolon_partial (puny : Str → Str) (o : Normalize.Opts) (hl : o.lowercase = false)
+    (hts : o.stripTrailingSlash = true) (hf : o.fixCommonMistakes = true) (g : UrlG)
+    (q q' : Str) (hq : g.query = some q) (a : QItem) (L1 L2 : List QItem) (x y : QItem)
+    (hd' : decoded q' = a :: L1 ++ y :: L2) (hd : decoded q = a :: L1 ++ x :: L2)
+    (hy : ampRest (serializeItem y) = some (serializeItem x))
+    (hx : dropAmp (serializeItem x) = serializeItem x) :
+    normG puny o ({ g with query := some q' } : UrlG) = normG puny o g := by
+  refine normG_congr puny o g _ ?_ ?_ ?_
+  · rfl
+  · rfl
+  intro po
+  rw [record_query, record_query_self g _ po hq]
+  exact norm_amp_semicolon_partial puny o hl hts hf _ (g.record po) q' q a L1 L2 x y hd' hd hy hx
+
 /-- **`&amp;` written for `&` is irrelevant on strings** (`fix_common_mistakes`), under the
 hypotheses of `norm_amp_semicolon_partial` on the decoded items -/
-theorem norm_amp_semicolon_string_partial (puny : Str → Str) (o : Opts) (hl : o.lowercase = false)
+theorem norm_amp_semicolon_string_partial (puny : Str → Str) (o : Normalize.Opts) (hl : o.lowercase = false)
     (hts : o.stripTrailingSlash = true) (hf : o.fixCommonMistakes = true) (ir : Bool) (g : UrlG)
     (q q' : Str) (hq : g.query = some q) (a : QItem) (L1 L2 : List QItem) (x y : QItem)
     (hd' : decoded q' = a :: L1 ++ y :: L2) (hd : decoded q = a :: L1 ++ x :: L2)
@@ -329,14 +544,23 @@ theorem norm_amp_semicolon_string_partial (puny : Str → Str) (o : Opts) (hl : 
     (hg : InClass ir g) (hg' : InClass ir { g with query := some q' })
     (hport : portVal g.port ≠ none) :
     normalizeUrlString puny id o ir ({ g with query := some q' } : UrlG).str =
-      normalizeUrlString puny id o ir g.str := by
-  apply string_of_grammar puny o ir _ _ hg hg' hport
-  refine normG_congr puny o g _ ?_ ?_ ?_
-  · rfl
-  · rfl
-  intro po
-  rw [record_query, record_query_self g _ po hq]
-  exact norm_amp_semicolon_partial puny o hl hts hf _ (g.record po) q' q a L1 L2 x y hd' hd hy hx
+      normalizeUrlString puny id o ir g.str :=
+  string_of_grammar puny o ir _ _ hg hg' hport
+    (normG_amp_semicolon_partial puny o hl hts hf g q q' hq a L1 L2 x y hd' hd hy hx)
+
+/-- … and for every `u`, `u'` whose cleaned, resolved forms are the two strings (white space /
+control characters around, lower-case escapes, a followed redirect) -/
+theorem norm_amp_semicolon_string_rel_partial (puny : Str → Str) (o : Normalize.Opts) (hl : o.lowercase = false)
+    (hts : o.stripTrailingSlash = true) (hf : o.fixCommonMistakes = true) (ir : Bool) (g : UrlG)
+    (q q' : Str) (hq : g.query = some q) (a : QItem) (L1 L2 : List QItem) (x y : QItem)
+    (hd' : decoded q' = a :: L1 ++ y :: L2) (hd : decoded q = a :: L1 ++ x :: L2)
+    (hy : ampRest (serializeItem y) = some (serializeItem x))
+    (hx : dropAmp (serializeItem x) = serializeItem x)
+    (u u' : Str) (hg : InClassOf ir g u) (hg' : InClassOf ir { g with query := some q' } u')
+    (hport : portVal g.port ≠ none) :
+    normalizeUrlString puny id o ir u' = normalizeUrlString puny id o ir u :=
+  string_of_grammar_rel puny o ir _ _ u u' hg hg' hport
+    (normG_amp_semicolon_partial puny o hl hts hf g q q' hq a L1 L2 x y hd' hd hy hx)
 
 /-! ## non-vacuity, and a witness outside the class -/
 
@@ -356,6 +580,13 @@ example : exG.str = "https://www.a.com/p?a=1".toList ∧ InClass false exG ∧
     InClass false { exG with fragment := some "top".toList } ∧
     DroppedFragment {} (some "top".toList) ∧
     InClass false { exG with query := some "a=1&utm_source=x".toList } := by
+  decide +kernel
+
+/-- the relational class: white space / control characters around and lower-case escapes are
+cleaned away before the grammar is asked -/
+example : InClassOf false { exG with path := "/%C3%A9".toList } " \x00https://www.a.com/%c3%a9?a=1\n".toList ∧
+    InClassOf false { exG with path := "/%C3%A9".toList, ui := some "u".toList }
+      "\thttps://u@www.a.com/%C3%a9?a=1 ".toList := by
   decide +kernel
 
 /-- the parser on a string of the grammar, evaluated: the bridging lemma says what this is for
